@@ -1,0 +1,70 @@
+//go:build verif
+
+package croncontroller
+
+// Contracts for fvc (see /verif/DESIGN.md). Comment-only file.
+
+// Ghost log of schedule requests handed to the enqueue handler: request i is (enqKey[i], enqTs[i] ns) for 0 <= i < enqN;
+// enqPerKey[k] counts the requests for JobConfig key k.
+//@ ghost var enqN Int
+//@ ghost var enqKey Array[Int]string
+//@ ghost var enqTs Array[Int]Int
+//@ ghost var enqPerKey Array[string]Int
+
+//@ extern func iface github.com/furiko-io/furiko/pkg/execution/controllers/croncontroller.EnqueueHandler.EnqueueJobConfig
+//@   params recv, jobConfig, scheduleTime
+//@   requires jobConfig != nil
+//@   modifies enqN, enqKey, enqTs, enqPerKey
+//@   ensures result != nil ==> enqN == old(enqN) && enqKey == old(enqKey) && enqTs == old(enqTs) && enqPerKey == old(enqPerKey)
+//@   ensures result == nil ==> enqN == old(enqN) + 1
+//@        && enqKey == store(old(enqKey), old(enqN), nsname(jobConfig.Namespace, jobConfig.Name))
+//@        && enqTs == store(old(enqTs), old(enqN), ns(scheduleTime))
+//@        && enqPerKey == store(old(enqPerKey), nsname(jobConfig.Namespace, jobConfig.Name), old(enqPerKey)[nsname(jobConfig.Namespace, jobConfig.Name)] + 1)
+
+//@ func CronWorker.syncOne
+//@   tags C01, C04
+//@   requires w != nil && cronschedule.swf(w.schedule) && counts != nil && counts != w.schedule.jobConfigs.pq.names
+//@   modifies enqN, enqKey, enqTs, enqPerKey, mapof(counts), w.schedule.jobConfigs.pq.queue, arrays(*heap.Item), mapof(w.schedule.jobConfigs.pq.names), heap(heap.Item)
+//@   ensures [C01,C04] keeps-wf: cronschedule.swf(w.schedule)
+//@   ensures [C01,C04] at-most-one-request: enqN <= old(enqN) + 1
+//@   ensures [C01,C04] request-is-for-popped-time: enqN == old(enqN) + 1 ==> enqKey[old(enqN)] == key && enqTs[old(enqN)] == ns(ts)
+//@        && enqPerKey[key] == old(enqPerKey[key]) + 1 && counts[key] == old(counts[key]) + 1 && old(counts[key]) < maxCount
+//@   ensures [C01,C04] earlier-requests-kept: forall i int :: 0 <= i && i < old(enqN) ==> enqKey[i] == old(enqKey[i]) && enqTs[i] == old(enqTs[i])
+//@   ensures [C01,C04] other-keys-uncounted: forall k string :: k != key ==> enqPerKey[k] == old(enqPerKey[k]) && counts[k] == old(counts[k])
+//@   ensures [C04] capped: old(counts[key]) >= maxCount ==> enqN == old(enqN) && counts[key] == old(counts[key])
+//@   ensures [C01] reinserted-after-ts: result == nil && enqN == old(enqN) + 1 && cronschedule.due(w.schedule, key) ==> cronschedule.dueAt(w.schedule, key) * 1000000000 > ns(ts)
+//@   ensures [C04] capped-resumes-from-now: result == nil && enqN == old(enqN) && cronschedule.due(w.schedule, key) ==> cronschedule.dueAt(w.schedule, key) * 1000000000 > ns(now)
+//@   ensures [C01] other-entries-untouched: forall x string :: x != key ==> cronschedule.due(w.schedule, x) == old(cronschedule.due(w.schedule, x))
+//@        && (cronschedule.due(w.schedule, x) ==> cronschedule.dueAt(w.schedule, x) == old(cronschedule.dueAt(w.schedule, x)))
+
+// flushing of updated JobConfigs (channel receive loop): contract ASSUMED here, see C03
+//@ extern func CronWorker.refreshUpdatedJobConfigs
+//@   params w, now
+//@   requires w != nil && cronschedule.swf(w.schedule)
+//@   modifies w.schedule.jobConfigs.pq.queue, arrays(*heap.Item), mapof(w.schedule.jobConfigs.pq.names), heap(heap.Item)
+//@   ensures cronschedule.swf(w.schedule)
+
+//@ extern func iface github.com/furiko-io/furiko/pkg/runtime/controllercontext.Context.Configs
+//@   params recv
+
+// the dynamic configuration source of the controller context
+//@ extern func iface github.com/furiko-io/furiko/pkg/runtime/controllercontext.Configs.Cron
+//@   params recv
+//@   ensures result1 == nil ==> result0 != nil
+
+//@ pure capOf(n int) int = n > 0 ? n : 0
+
+//@ func CronWorker.Work
+//@   tags C01, C04
+//@   requires w != nil && cronschedule.swf(w.schedule)
+//@   modifies enqN, enqKey, enqTs, enqPerKey, clock, w.schedule.jobConfigs.pq.queue, arrays(*heap.Item), mapof(w.schedule.jobConfigs.pq.names), heap(heap.Item)
+//@   loop 1 invariant cronschedule.swf(w.schedule) && scheduledCount != nil && fresh(scheduledCount) && scheduledCount != w.schedule.jobConfigs.pq.names
+//@   loop 1 invariant enqN >= old(enqN) && clock >= old(clock)
+//@   loop 1 invariant never-early: forall i int :: old(enqN) <= i && i < enqN ==> enqTs[i] <= clock
+//@   loop 1 invariant log-append-only: forall i int :: 0 <= i && i < old(enqN) ==> enqKey[i] == old(enqKey[i]) && enqTs[i] == old(enqTs[i])
+//@   loop 1 invariant counted: forall k string :: enqPerKey[k] == old(enqPerKey[k]) + scheduledCount[k] && scheduledCount[k] >= 0
+//@   loop 1 invariant capped: forall k string :: scheduledCount[k] <= capOf(maxMissedSchedules)
+//@   ensures [C01] keeps-wf: cronschedule.swf(w.schedule)
+//@   ensures [C01] never-early: forall i int :: old(enqN) <= i && i < enqN ==> enqTs[i] <= clock
+//@   ensures [C01] log-append-only: enqN >= old(enqN) && (forall i int :: 0 <= i && i < old(enqN) ==> enqKey[i] == old(enqKey[i]) && enqTs[i] == old(enqTs[i]))
+//@   ensures [C01,C04] per-key-counts-only-grow: forall k string :: enqPerKey[k] >= old(enqPerKey[k])
